@@ -295,18 +295,14 @@ type PathQuery struct {
 	Stop func(ssa.Instruction) bool
 	// Target returns true for instructions whose reachability is asked.
 	Target func(ssa.Instruction) bool
-	// SameIteration: do not follow back edges of loops that contain both From and the target.
-	SameIteration bool
+	// LoopHeader: back edges into this block are not followed ("same iteration" of that loop).
+	LoopHeader *ssa.BasicBlock
 	// StopEdge, when set, blocks following the edge from block b to its k-th successor.
 	StopEdge func(b *ssa.BasicBlock, k int) bool
 }
 
 // Find returns the first target instruction reachable, or nil.
 func (q PathQuery) Find(fn *ssa.Function) ssa.Instruction {
-	var loops []*Loop
-	if q.SameIteration {
-		loops = Loops(fn)
-	}
 	type start struct {
 		b *ssa.BasicBlock
 		i int
@@ -348,17 +344,8 @@ func (q PathQuery) Find(fn *ssa.Function) ssa.Instruction {
 			if q.StopEdge != nil && q.StopEdge(s.b, k) {
 				continue
 			}
-			if q.SameIteration && (succ == s.b || succ.Dominates(s.b)) {
-				// back edge to header succ: cut if the loop contains From
-				cut := false
-				for _, l := range loops {
-					if l.Header == succ && l.Body[st.b] {
-						cut = true
-					}
-				}
-				if cut {
-					continue
-				}
+			if q.LoopHeader != nil && succ == q.LoopHeader && (succ == s.b || succ.Dominates(s.b)) {
+				continue
 			}
 			work = append(work, start{succ, 0})
 		}
